@@ -481,11 +481,14 @@ def run_check(prop: str, tier: str, replay: str | None) -> int:
     if prop == "C02":
         from . import check_policy
         check_policy.run(ck, tier)
-    if prop in ("C01", "C02"):
+    if prop in ("C01", "C02", "C16"):
         from . import check_backpressure
         check_backpressure.run(ck, prop, tier)
     if prop == "C07":
         subscriber_send_scripts(ck, tier)
+    if prop == "C15":
+        from . import check_lifecycle
+        check_lifecycle.run(ck, tier)
     ck.sample({"script": sockcorr.fmt(work[0][1][min(50, len(work[0][1]) - 1)])})
     ck.sample({"script": sockcorr.fmt(work[-1][1][-1])[:600]})
     return ck.finish()
